@@ -124,6 +124,13 @@ def run_inproc(case, acc):
     final = obs["phases"][-1]["h"]
     acc.hit("conservation_eval")
     lost = [u for u in sent_ok if u not in processed]
+    if restarts:
+        # an event accepted by a process that dies before its control loop has persisted the tick is gone with the process
+        # (no durability is promised for the in-memory mailbox; C13 decides crash semantics): only the last process' sends count here
+        last_phase = len(obs["case_phases"]) - 1
+        t_last = max(restarts)
+        sent_last = {r["uid"] for r in cs.tr.rec.of("send_ok") if r["t"] >= t_last}
+        lost = [u for u in lost if u in sent_last]
     if lost and not (final and final["status"] == "completed"):
         acc.violation({"mech": "sent_event_never_processed", "restart": bool(restarts)},
                       f"events {lost} were accepted by send_event but never reached the run; final handler {final}; releases {[r['t'] for r in obs['releases']]}", wit)
